@@ -275,6 +275,20 @@ def ids_round_trip(ctx):
     for name in ('_process_ids', 'read_monitor', 'write_monitor', '_reduce_ids', 'raw_to_converge', 'converge_to_support', 'raw_to_support'):
         h = ctx.func(MU + ':' + name)
         _ref(ctx, h, REFS[name], 'munge.' + name, 'id / trajectory helper')
+    # read_raw_file(iter=True): one (iteration, id) tuple per recorded STEP - the length handed to _process_ids is the number
+    # of costs (params is indexed by parameter first in a support file, by step in a raw file, so its length is the wrong one)
+    rr = ctx.func(MU + ':read_raw_file')
+    fp = rr.args()[0]
+    RI = ('call', ('name', 'read_import'), (('name', fp), ('const', 'id'), ('const', 'params'), ('const', 'cost')), ())
+    want_it = ('tuple', ('call', ('name', '_process_ids'), (('sub', RI, T.num(0)), ('call', ('name', 'len'), (('sub', RI, T.num(2)),), ())), ()),
+               ('sub', RI, T.num(1)), ('sub', RI, T.num(2)))
+    want_plain = ('call', ('name', 'read_import'), (('name', fp), ('const', 'params'), ('const', 'cost')), ())
+    rts = return_terms(rr.node)
+    ctx.need(len(rts) == 2, 'read_raw_file: expected two returns (iter / plain)')
+    ctx.stats['terms_compared'] += 2
+    terms_ = [x[1] for x in rts]
+    ctx.check(want_it in terms_ and want_plain in terms_, 'read_raw_file#returns', 'iter: (_process_ids(id, len(cost)), params, cost); plain: (params, cost)',
+              'read_raw_file returns %s' % [T.show(x)[:150] for x in terms_ if x not in (want_it, want_plain)], rr, rr.node)
     w = ctx.func(MU + ':write_raw_file')
     src = ''.join(unparse(w.node).split())
     ctx.check('ifnotlen(ids):ids=None' in src and 'elifids.count(ids[0])==len(ids):ids=ids[0]' in src and 'ifidsisnotNone:' in src, 'write_raw_file#ids',
